@@ -422,3 +422,14 @@ def selection_like(v: ast.expr) -> bool:
     if isinstance(v, ast.Attribute):
         return True
     return False
+
+
+def bound_ratio_like(v: ast.expr) -> bool:
+    """selection_like, or a difference / quotient that mentions a bound: (ub - x)[m] / d[m], ub - x ... (the two
+    branches of a bound ratio bound to names before the np.where)"""
+    if selection_like(v):
+        return True
+    if isinstance(v, ast.BinOp) and isinstance(v.op, (ast.Sub, ast.Div)):
+        return any(isinstance(x, ast.Name) and x.id in ("lb", "ub") for x in ast.walk(v)) and \
+            not any(isinstance(x, ast.Call) for x in ast.walk(v))
+    return False
